@@ -175,6 +175,9 @@ func (s vfC25Step) String() string {
 		if s.Trig == 1 {
 			return "release(poll)"
 		}
+		if s.Trig == 2 {
+			return "release(broadcast)"
+		}
 		return fmt.Sprintf("release(%d)", s.N)
 	case vfC25Fail:
 		return fmt.Sprintf("failNextPolls(%d)", 1+s.N)
@@ -345,6 +348,19 @@ func vfC25Gen(rt *rapid.T) vfC25Case {
 			}
 		case vfC25Release:
 			s.N = rapid.IntRange(0, 5).Draw(rt, "rel")
+		case vfC25ArmBcast:
+			// broadcast window: the next broadcast (caused by a backend change + notification) parks in flight at its first
+			// target; a second update of the same key (publish, when versioned) overtakes it; then the first one resumes
+			k := rapid.IntRange(0, 2).Draw(rt, "bkey")
+			c.Steps = append(c.Steps, s, vfC25Step{Kind: vfC25Set, Key: k, Bump: 1, Gate: true})
+			if c.Versioned {
+				c.Steps = append(c.Steps, vfC25Step{Kind: vfC25Publish, Key: k, VMode: rapid.SampledFrom([]int{0, 0, 1}).Draw(rt, "bvmode")})
+			}
+			if rapid.Bool().Draw(rt, "bmore") {
+				c.Steps = append(c.Steps, vfC25Step{Kind: vfC25Adv, Adv: rapid.SampledFrom([]int{0, 2}).Draw(rt, "badv")})
+			}
+			c.Steps = append(c.Steps, vfC25Step{Kind: vfC25Release, Trig: 2})
+			continue
 		case vfC25Fail:
 			s.N = rapid.IntRange(0, 2).Draw(rt, "nfail")
 		}
@@ -1522,6 +1538,9 @@ func vfC25Run(t *testing.T, cs vfC25Case, out *vfC25Out, isKnown func(string) bo
 				g := cands[s.N%len(cands)]
 				if s.Trig == 1 && pollInFlight() {
 					g = "poll"
+				}
+				if s.Trig == 2 && bcastParked() {
+					g = "bcast"
 				}
 				if g == "held" {
 					if pollInFlight() {
